@@ -22,7 +22,7 @@ for p in allp:
         engine=s.get('engine', 'E2'),
         technique=s.get('technique', 'bounded symbolic execution of the LLVM IR of the real code (own executor) with z3 deciding every check; native replay of counterexamples'),
         level_claimed=dict(category='model_checking',
-                           text=s.get('claim', ''), design_ref='DESIGN.md section 5/' + pid),
+                           text=s.get('claim', ''), design_ref='DESIGN.md Part I (I.2, as built); Part II section 5/' + pid + ' (plan)'),
         level_note='bounds: %s | assumptions: %s | outside the claim: %s' % (
             json.dumps(s.get('bounds')), '; '.join(s.get('assumptions', [])), '; '.join(s.get('outside', [])))))
 na = []
